@@ -50,6 +50,22 @@ def check(run):
         crules.idem_rules(run, "C01-model", ast)
         # indirect policies: the table of addresses must point at the classes' own static v-table pointers (valid across updates)
         c09.ast_rules(run, r6, ast, table=False)
+        # what the tables are built FROM and installed INTO: a change there changes which definition runs just as well
+        if "C01-classes" not in run.rules:
+            run.rule("C01-classes", "the class lattice update works on: every listed base of every record is merged, classes are told apart by their class_map entry (after type_index)", floor=6)
+            run.rule("C01-layout", "v-table cell written at slot - first_slot, pointer installed with the same bias, dispatch data sized for every cell", floor=8)
+            run.rule("C01-hash", "type-id hash: accepted only after a collision-free scan, probed with the expression hash_type_id computes, published by every update; deferred ids resolved once", floor=20)
+            for x in ("C01-h2", "C01-h3", "C01-h4", "C01-h5"):
+                run.rule(x, "(sub-rules of C01-hash)", floor=0)
+        crules.merge_rules(run, "C01-classes", None, ast)
+        crules.lookup_rules(run, "C01-classes", None, ast)
+        crules.bias_rules(run, "C01-layout", ast)
+        crules.size_rules(run, "C01-layout", ast)
+        crules.hash_rules(run, "C01-hash", "C01-hash", "C01-hash", "C01-hash", "C01-hash", ast)
+        crules.deferred_rules(run, "C01-hash", "C01-hash", "C01-hash", ast)
+        crules.phase_rules(run, "C01-classes", ast)
+    for x in ("C01-h2", "C01-h3", "C01-h4", "C01-h5"):
+        run.rules.pop(x, None)
     run.assumptions += ["v-table pointer acquisition (Policy::dynamic_vptr, virtual_ptr::_vptr) is an opaque leaf here; its content is decided by C09 / C15",
                         "the tables themselves (which definition sits in which cell) are values computed by update: not decided"]
     return run.finish(level="other", explanation="Symbolic summary (LLVM IR after mem2reg, library calls substituted) of the function pointer that "
